@@ -571,3 +571,167 @@ def c19_cli(ctx, broken):
     return {"summary": {"evaluations": evals, "nontrivial": nontriv, "exhaustive": True,
                         "what": "every truncation point and every single-bit flip of each file through the real loader (rejected or same content), frame-decoder model cross-checked against snap on a subset, random faults through every CLI subcommand"},
             "samples": samples}
+
+
+# ----------------------------------------------------------------------------- C20
+
+import math
+import struct
+
+
+def f2b(x):
+    return str(struct.unpack("<Q", struct.pack("<d", x))[0])
+
+
+def b2f(tok):
+    return struct.unpack("<d", struct.pack("<Q", int(tok.lstrip("%"))))[0]
+
+
+def close(a, b, rel, absol):
+    if math.isnan(a) or math.isnan(b):
+        return math.isnan(a) and math.isnan(b)
+    return abs(a - b) <= rel * max(abs(a), abs(b)) + absol
+
+
+def qual_letters(rnd, n):
+    return "".join(chr(65 + rnd.choice([2, 20, 30, 40, 41])) for _ in range(n))
+
+
+def make_reads(rnd, genome, coverage, err, rlen):
+    n = max(2, int(len(genome) * coverage / rlen))
+    reads = ([], [])
+    for i in range(n):
+        L = min(len(genome), rlen + rnd.randint(-10, 10))
+        p = rnd.randrange(len(genome) - L + 1)
+        s = genome[p:p + L]
+        if rnd.random() < 0.5:
+            s = revcomp(s)
+        s = "".join((rnd.choice("ACGT") if rnd.random() < err else ch) for ch in s)
+        if rnd.random() < 0.03:
+            q = rnd.randrange(L)
+            s = s[:q] + "N" + s[q + 1:]
+        reads[i % 2].append(s + ":" + qual_letters(rnd, L))
+    return reads
+
+
+def c20_cli(ctx, broken):
+    rnd = random.Random(ctx.seed * 86028121 + 41)
+    thorough = ctx.tier == "thorough"
+    evals = nontriv = 0
+    samples = []
+
+    def viol(what, **kw):
+        kw.update({"kind": "c20", "what": what})
+        return {"summary": {"evaluations": evals, "nontrivial": nontriv}, "violation": kw}
+
+    # 1. likelihood / gradient at parameter points: code vs Float instance of the model, and
+    #    the code's gradient vs central finite differences of the code's likelihood
+    npts = 4000 if thorough else 300
+    lines = []
+    meta = []
+    for _ in range(npts):
+        w0 = rnd.choice([rnd.uniform(0.01, 0.99), rnd.uniform(0.5, 0.999), 10 ** rnd.uniform(-4, -0.01)])
+        c = rnd.choice([rnd.uniform(1.0, 100.0), rnd.uniform(1.0, 3.0), rnd.uniform(15, 45)])
+        n = rnd.randint(1, 120)
+        mode = rnd.random()
+        if mode < 0.4:
+            counts = [rnd.randint(0, 5000) for _ in range(n)]
+        else:
+            lam = rnd.uniform(5, 60)
+            counts = [int(1e6 * math.exp(-i) + 1e5 * math.exp(-(i + 1 - lam) ** 2 / (2 * lam))) for i in range(n)]
+        cs = ",".join(map(str, counts))
+        h = 1e-6
+        for (a, b) in [(w0, c), (w0 + h, c), (w0 - h, c), (w0, c + h), (w0, c - h)]:
+            lines.append(f"covll w0={f2b(a)} c={f2b(b)} counts={cs}")
+        meta.append((w0, c, counts, h))
+    impl = core.run_impl(ctx, lines, "c20")
+    model = core.run_model(ctx, lines)
+    for i, (w0, c, counts, h) in enumerate(meta):
+        evals += 1
+        tot = sum(counts) + 1
+        vals = [[b2f(t) for t in impl[5 * i + j].split(" ")] for j in range(5)]
+        mv = [b2f(t) for t in model[5 * i][0].split(" ")]
+        for name, a, b in zip(("ll", "grad_w0", "grad_c"), vals[0], mv):
+            if not close(a, b, 1e-7, 1e-7 * tot):
+                return viol(f"{name}: code and model formula differ", w0=w0, c=c, counts=counts[:200], code=a, model=b, model_case=lines[5 * i][:3000])
+        if 0.0 < w0 - h and w0 + h < 1.0 and c - h >= 1.0:
+            fd_w0 = (vals[1][0] - vals[2][0]) / (2 * h)
+            fd_c = (vals[3][0] - vals[4][0]) / (2 * h)
+            scale = abs(vals[0][0]) * 1e-9 / h + 1e-3 * tot * 1e-3
+            if not close(fd_w0, vals[0][1], 2e-4, scale) or not close(fd_c, vals[0][2], 2e-4, scale):
+                return viol("the code's gradient is not the derivative of the code's likelihood (central differences)",
+                            w0=w0, c=c, counts=counts[:200], grad=[vals[0][1], vals[0][2]], finite_diff=[fd_w0, fd_c], model_case=lines[5 * i][:3000])
+        nontriv += 1
+    samples.append({"covll": lines[0][:200]})
+    # 2. find_cutoff
+    lines = []
+    for _ in range(3000 if thorough else 400):
+        w0 = rnd.uniform(0.001, 0.999)
+        c = rnd.uniform(1.0, 90.0)
+        lines.append(f"covcut w0={f2b(w0)} c={f2b(c)} max={rnd.choice([0, 1, 2, 5, 30, 77, 200])}")
+    impl = core.run_impl(ctx, lines, "c20b")
+    model = core.run_model(ctx, lines)
+    for l, r, (m, _) in zip(lines, impl, model):
+        evals += 1
+        mp = m.split(" ")
+        if b2f(mp[1]) < 1e-7:
+            continue   # a root within rounding of zero: sign not comparable across lgamma implementations
+        nontriv += 1
+        if r != mp[0]:
+            return viol("find_cutoff differs from the least count with a(c) - b(c) < 0", case=l, code=r, model=mp[0], model_case=l)
+    # 3. whole pipeline on generated read pairs (in-process) and through the CLI
+    npairs = 40 if thorough else 4
+    for it in range(npairs):
+        k = rnd.choice([15, 21, 31, 33])
+        w = 64 if k <= 31 else 128
+        rc = rnd.random() < 0.7
+        genome = rand_genome(rnd, rnd.randint(1200, 2200))
+        cov = rnd.uniform(10, 80)
+        err = rnd.uniform(0, 0.03)
+        r1, r2 = make_reads(rnd, genome, cov, err, rnd.randint(60, 100))
+        line = f"cov w={w} k={k} rc={int(rc)} r1={','.join(r1)} r2={','.join(r2)}"
+        r = kvs(core.run_impl(ctx, [line], "c20c")[0])
+        evals += 1
+        allreads = [x.split(":")[0] for x in r1 + r2]
+        w0b = r.get("w0", "%" + f2b(0.8)).lstrip("%")
+        cb = r.get("c", "%" + f2b(20.0)).lstrip("%")
+        mline = f"covcheck w={w} k={k} rc={int(rc)} w0={w0b} c={cb} reads={','.join(allreads)}"
+        m = kvs(core.run_model(ctx, [mline])[0][0])
+        if r["nkeys"] != m["nkeys"] or r["dict"] != m["dict"]:
+            return viol("k-mer multiplicities differ", k=k, rc=rc, code_nkeys=r["nkeys"], model_nkeys=m["nkeys"], model_case=mline[:200000])
+        if r["hist"] != m["hist"]:
+            return viol("count table differs (multiplicity histogram / truncation at the last count shared by >= 50 k-mers)",
+                        k=k, rc=rc, code=r["hist"][:500], model=m["hist"][:500], model_case=mline[:200000])
+        if r.get("fit") == "ok":
+            nontriv += 1
+            if r["cutoff"] != m["cutoff"] or r["ret"] != r["cutoff"]:
+                return viol("reported cutoff is not the least count at which the coverage component outweighs the error component",
+                            k=k, code=r["cutoff"], model=m["cutoff"], w0=b2f(r["w0"]), c=b2f(r["c"]), model_case=mline[:200000])
+        # CLI
+        d = fresh_dir(ctx, "c20cli")
+        def fq(path, reads):
+            with open(path, "w") as f:
+                for i, x in enumerate(reads):
+                    s, q = x.split(":")
+                    f.write(f"@r{i}\n{s}\n+\n{''.join(chr(ord(ch) - 65 + 33) for ch in q)}\n")
+        fq(os.path.join(d, "a.fastq"), r1)
+        fq(os.path.join(d, "b.fastq"), r2)
+        code, out, errtxt = ska(["cov", os.path.join(d, "a.fastq"), os.path.join(d, "b.fastq"), "-k", str(k)] + ([] if rc else ["--single-strand"]), d)
+        evals += 1
+        if (code == 0) != (r.get("fit") == "ok"):
+            return viol("CLI and library disagree on whether the fit succeeded", k=k, stderr=errtxt[-300:])
+        if code == 0:
+            mcut = re.search(r"Estimated cutoff\t(\d+)", errtxt)
+            rows = [l.split("\t") for l in out.splitlines()[1:] if l.strip()]
+            want_hist = [] if m["hist"] == "~" else m["hist"].split(",")
+            got = [x[1] for x in rows]
+            cut = int(mcut.group(1)) if mcut else -1
+            labels_ok = all((x[3] == "Error") == (int(x[0]) < cut) for x in rows) and [int(x[0]) for x in rows] == list(range(1, len(rows) + 1))
+            if got != want_hist or str(cut) != r["cutoff"] or not labels_ok:
+                return viol("ska cov table / cutoff / labels differ", k=k, cli_cutoff=cut, lib_cutoff=r["cutoff"], rows=rows[:20], want_hist=want_hist[:20])
+        if len(samples) < 3:
+            samples.append({"k": k, "rc": rc, "coverage": round(cov, 1), "error_rate": round(err, 4), "reads": len(allreads), "distinct_kmers": int(r["nkeys"]),
+                            "fit": r.get("fit"), "table_rows": 0 if m["hist"] == "~" else len(m["hist"].split(","))})
+    return {"summary": {"evaluations": evals, "nontrivial": nontriv,
+                        "what": "hooked log_likelihood/grad_ll vs the model's Float instance and vs central finite differences; hooked find_cutoff vs model; CoverageHistogram on generated read pairs (multiplicities, table, cutoff, labels) in-process and through `ska cov`"},
+            "samples": samples}
